@@ -583,6 +583,12 @@ def empty_geometries(name):
         out += [{"xshape": [1, 1, 2, 5], "kernel": 3, "stride": 1, "padding": 0, "dilation": 1, "cout": 1, "bias": False},
                 {"xshape": [1, 1, 5, 2], "kernel": [1, 3], "stride": 1, "padding": 0, "dilation": 1, "cout": 1, "bias": False},
                 {"xshape": [1, 1, 2, 2], "kernel": 3, "stride": 1, "padding": 0, "dilation": 1, "cout": 1, "bias": False}]
+    # padding='same' is only defined for unit strides (the layers document the refusal; PyTorch refuses too)
+    if name == "conv1d":
+        out += [{"xshape": [1, 2, 8], "kernel": 3, "stride": 2, "padding": "same", "dilation": 1, "cout": 2, "bias": True, "_form": "module"}]
+    if name == "conv2d":
+        out += [{"xshape": [1, 2, 8, 8], "kernel": 3, "stride": 2, "padding": "same", "dilation": 1, "cout": 2, "bias": True, "_form": "module"},
+                {"xshape": [1, 1, 8, 8], "kernel": 3, "stride": [1, 2], "padding": "same", "dilation": 1, "cout": 1, "bias": False, "_form": "module"}]
     if name in ("max_pool2d", "avg_pool2d", "unfold"):
         out += [{"xshape": [1, 1, 2, 5], "kernel": 3, "stride": 1, "padding": 0, "dilation": 1},
                 {"xshape": [1, 1, 2, 2], "kernel": 3, "stride": 1, "padding": 0, "dilation": 1},
